@@ -49,9 +49,12 @@ package sstable
 //@   ensures[C11] result != nil && fresh(result) && result.builder != nil
 //@ func NewIndexBuilder
 //@   ensures[C11] result != nil && fresh(result)
+// C02: until the rename the bytes live under a name the table loaders do not take for a table (they select by the
+// ".sst" suffix: loadSSTables, ReloadSSTables, the compaction strategy), whatever the final path is.
 //@ func NewFileManager
 //@   ensures[C11] err == nil ==> result0 != nil && fresh(result0)
 //@   ensures[C11] err != nil ==> result0 == nil
+//@   ensures[C02] err == nil ==> result0.path == path && !hassuffix(result0.tmpPath, ".sst")
 //@ func NewWriterWithOptions
 //@   ensures[C11] err == nil ==> WriterInv(result0) && result0.dataOffset == 0 && result0.entriesAdded == 0
 //@ func (*Writer).flushBlock
